@@ -4,6 +4,7 @@ import PdshVerif.Dshbak.Input
 import PdshVerif.Dshbak.CoalesceLemmas
 import PdshVerif.Dshbak.CompressLemmas
 import PdshVerif.Dshbak.SpecLemmas
+import PdshVerif.Dshbak.HeaderExpands
 
 /-!
 # C19  dshbak regroups output losslessly; its host headers mean what pdsh means
@@ -19,9 +20,12 @@ under exactly one header, merged iff identical, every body once);  the structure
 `compressGroups g` denotes, under the small expander `hostsOf`, a permutation of the group `g`
 (for groups without a stem clash);  both together: the -c output with every header replaced by what
 it denotes satisfies `Spec.CoalescedOk`.
-Not proved here:  that the TEXT `renderHeader gs` is parsed by pdsh into the structure `gs` (the
-check decides that on the real `pdsh -Q -w HEADER` for every generated header, and compares
-`hostsOf` with pdsh's answer);  hostlist.c's limits (F19-LONGRUN);  Perl itself.
+`header_expands`: the header TEXT of the repaired script, read by C01's model of `hostlist_create`
+(any variant of hostlist.c), yields exactly the group — the bridge between the Perl compressor and
+the C parser as a theorem (`Dshbak/HostlistBridge.lean`, `HeaderExpands.lean`).
+Not proved here:  Perl itself and the C parser are tied to their models by the checks (C19 runs the
+real `pdsh -Q -w HEADER` on every generated header as correspondence; C01 ties hostlist.c to its
+model);  for the UNREPAIRED script the text-level statement is false (F19-EMPTYSTEM, F19-LONGRUN).
 Genuine defects mirrored by the model, each with a switchable repaired variant that the check
 selects by probing the real script: D21 (`unterminated_dropped` / `repaired_keeps_last`),
 F19-EMPTYSTEM (`emptystem_witness`; excluded from `compress_expands` by `NoStemClash`, no exclusion
@@ -179,6 +183,44 @@ theorem coalesced_headers_spec_repaired (rep : Bool) (ls : List InLine) (h : ∀
     exact List.sublist_flatten_of_mem (List.mem_map.mpr ⟨b, hb, rfl⟩)
   exact compress_expands_repaired lim b.1 (hsub.nodup sp.once) _ (horder b hb)
 
+/-- HEADER_EXPANDS (the bridge to C01's parser model, `Hostlist.create` = `hostlist_create`).
+For the script as repaired (F19-EMPTYSTEM, F19-LONGRUN with any limit `m ≤ 16384`), every variant
+`cfg` of hostlist.c (as found, as probed from /repo, repaired), every group `g` in C19's domain
+(`HeaderDom`: distinct non-empty names without separator or bracket characters, ≤ 1000 bytes,
+numeric parts < 2^64-1, ≤ 10240 hosts) and every order `gs` of the suffix groups: the parser applied
+to the header TEXT succeeds and the list it builds denotes exactly the hosts of the group, as a
+multiset.  This replaces "decided per case by the real `pdsh -Q -w HEADER`" (still run by the check
+as correspondence) by a theorem about the two models. -/
+theorem header_expands (cfg : PdshVerif.Hostlist.Cfg) (m : Nat) (hm : 0 < m)
+    (hm16 : m ≤ PdshVerif.Hostlist.Spec.RANGE_LIMIT) (g : List Str) (hd : HeaderDom g)
+    (gs : List (List Elem)) (hgs : gs.Perm (compressGroupsFixed (some m) g)) :
+    ∃ h, PdshVerif.Hostlist.create cfg (renderHeader gs) = .ok h ∧ h.Good ∧ h.hosts.Perm g :=
+  create_header cfg m hm hm16 g hd gs hgs
+
+/-- ... and therefore the whole -c report of the repaired script, with every header TEXT read by the
+parser model, satisfies the specification (every host under exactly one header, merged iff
+identical, each body once, each header standing for exactly its hosts) -/
+theorem coalesced_text_spec (cfg : PdshVerif.Hostlist.Cfg) (m : Nat) (hm : 0 < m)
+    (hm16 : m ≤ PdshVerif.Hostlist.Spec.RANGE_LIMIT)
+    (rep : Bool) (ls : List InLine) (h : ∀ l ∈ ls, l.WF) (ks : List Str)
+    (hks : ks.Perm (keys (table rep ls)))
+    (order : List Str → List (List Elem))
+    (horder : ∀ b ∈ coalesce ks (table rep ls), (order b.1).Perm (compressGroupsFixed (some m) b.1))
+    (hdom : ∀ b ∈ coalesce ks (table rep ls), HeaderDom b.1)
+    (parsed : List Str → List Str)
+    (hparsed : ∀ b ∈ coalesce ks (table rep ls), ∃ hl,
+      PdshVerif.Hostlist.create cfg (renderHeader (order b.1)) = .ok hl ∧ parsed b.1 = hl.hosts) :
+    Spec.CoalescedOk (recsOf ls)
+      ((coalesce ks (table rep ls)).map fun b => (parsed b.1, b.2)) := by
+  have sp := coalesce_spec rep ls h ks hks
+  apply sp.perm_heads (fun b => parsed b.1)
+  intro b hb
+  obtain ⟨hl, h1, h2⟩ := hparsed b hb
+  obtain ⟨hl', h1', _, h3⟩ := header_expands cfg m hm hm16 b.1 (hdom b hb) _ (horder b hb)
+  rw [h1] at h1'
+  cases h1'
+  rw [h2]; exact h3
+
 /-! ### defects of the unchanged script, mirrored by the model -/
 
 /-- D21: whatever precedes it, a final line without newline contributes nothing -/
@@ -226,5 +268,12 @@ example : renderHeader (compressGroups none (strSort ["n08-ib".toList, "n09-ib".
 
 example : hostsOf (compressGroups none (strSort ["n08-ib".toList, "n09-ib".toList, "n10-ib".toList])) =
     ["n08-ib".toList, "n09-ib".toList, "n10-ib".toList] := by decide
+
+example : HeaderDom (["n08-ib", "n09-ib", "n10-ib", "foo", "0", "7"].map String.toList) :=
+  ⟨by decide, by decide, by decide, by decide⟩
+
+example : renderHeader (compressGroupsFixed (some 16384)
+    (strSort (["n08-ib", "n09-ib", "n10-ib", "foo", "1foo"].map String.toList))) =
+    "foo,1foo,n[08-10]-ib".toList := by decide
 
 end PdshVerif.Props.C19
